@@ -5,6 +5,7 @@ use crate::fail;
 use crate::props::c05::wire_and_expect;
 use crate::props::parse_case;
 use crate::refcodec;
+use crate::simx;
 use crate::sim::{run_sim, Frames, Kind, Link, Out, Sim};
 
 use serde::{Deserialize, Serialize};
@@ -486,9 +487,181 @@ fn gen_cancel(s: &mut Src<'_>) -> CancelCase {
     CancelCase { kind, peers, ops }
 }
 
+/// A well-formed COMMAND frame (a redundant READY - the one command the codec accepts after the
+/// handshake) arrives while a recv is pending. Whatever the socket does with it - skip it and keep
+/// waiting, or end the call with an error - a recv that is still pending afterwards and is then
+/// dropped must leave everything as it was: REQ still owes the reply of its outstanding request,
+/// and the message that arrives next is returned by the next recv.
+#[derive(Debug, Clone, Serialize, Deserialize, PartialEq, Eq, Hash)]
+pub struct CmdCase {
+    pub kind: Kind,
+    /// polls of the recv before the first command byte arrives (0 = the recv is created after)
+    pub polls_before: usize,
+    /// number of command frames
+    pub commands: usize,
+    /// the command bytes arrive in two parts, the first of this many bytes (0 = in one piece),
+    /// with a poll in between
+    pub split: usize,
+    /// polls (only when woken) after everything has arrived
+    pub polls_after: usize,
+}
+
+pub fn cmd_outcome(c: &CmdCase) -> Outcome {
+    let mut o = Outcome::new(hash_of(c));
+    o.class(format!("kind-{}", c.kind.name()));
+    o.class("command-frame-while-recv-pending");
+    let c2 = c.clone();
+    let (r, panics) = capture_panics(|| {
+        run_sim(async move {
+            let c = c2;
+            let kind = c.kind;
+            let who = kind.name();
+            let mut f: Vec<Failure> = vec![];
+            let mut classes: Vec<String> = vec![];
+            let mut sim = Sim::new();
+            let s = sim.socket(kind, None);
+            let (link, _id) = match simx::attach_raw(&mut sim, s, None).await {
+                Ok(x) => x,
+                Err(e) => {
+                    fail!(f, format!("C14/{}/setup", who), "{}", e);
+                    return (f, classes);
+                }
+            };
+            if kind == Kind::Req {
+                let a = sim.send(s, &[b"q0".to_vec()]);
+                match sim.run(a).await {
+                    Ok(Some(Out::Send(Ok(())))) => {}
+                    other => {
+                        fail!(f, "C14/REQ/in-turn-send-refused", "request 0: {:?}", other);
+                        return (f, classes);
+                    }
+                }
+            }
+            let mut cmd = vec![];
+            for _ in 0..c.commands.max(1) {
+                cmd.extend_from_slice(&refcodec::encode_ready(kind.a_compatible_peer(), None));
+            }
+            let mut recv: Option<usize> = None;
+            if c.polls_before > 0 {
+                let a = sim.recv(s);
+                for _ in 0..c.polls_before {
+                    if sim.done(a) || !(sim.polls(a) == 0 || sim.woken(a)) {
+                        break;
+                    }
+                    sim.poll(a);
+                }
+                recv = Some(a);
+            }
+            link.to_lib.deposit(&cmd);
+            if c.split > 0 && c.split < cmd.len() {
+                link.to_lib.deliver(c.split);
+                if let Some(a) = recv {
+                    if sim.woken(a) {
+                        sim.poll(a);
+                    }
+                }
+            }
+            link.to_lib.deliver_all();
+            let a = match recv {
+                Some(a) => a,
+                None => sim.recv(s),
+            };
+            for _ in 0..c.polls_after.max(1) {
+                if sim.done(a) || !(sim.polls(a) == 0 || sim.woken(a)) {
+                    break;
+                }
+                sim.poll(a);
+            }
+            if sim.done(a) {
+                match sim.take(a) {
+                    Some(Out::Recv(Ok(m))) => {
+                        fail!(f, format!("C14/{}/message-invented", who), "no message was sent, only a command frame, but recv returned {} frames", m.len());
+                    }
+                    _ => {
+                        // the call completed (with an error): nothing was abandoned
+                        classes.push("command-frame-ended-the-call".into());
+                    }
+                }
+                return (f, classes);
+            }
+            // still pending after the command frame(s) went by: abandon it
+            sim.cancel(a);
+            classes.push("recv-abandoned-after-a-skipped-command-frame".into());
+            if kind == Kind::Req {
+                let before = link.from_lib.tap_len();
+                let m: Frames = vec![b"out-of-turn".to_vec()];
+                let t = sim.send(s, &m);
+                match sim.run(t).await {
+                    Ok(Some(Out::Send(Err(e)))) if e.returned.as_ref() == Some(&m) && link.from_lib.tap_len() == before => {}
+                    other => {
+                        fail!(
+                            f,
+                            "C14/REQ/abandoned-recv-forgets-outstanding-request",
+                            "a recv for request #0 went on waiting after a command frame and was then abandoned; the next send must be refused (message handed back, nothing written) but: {:?}, {} bytes written",
+                            other.map(|o| o.map(|o| format!("{:?}", o).chars().take(100).collect::<String>())),
+                            link.from_lib.tap_len() - before
+                        );
+                        return (f, classes);
+                    }
+                }
+            }
+            // the message (REQ: the reply of request 0) arrives now: the next recv returns it
+            let lens = if kind == Kind::XPub { vec![9usize] } else { vec![3usize, 0, 5] };
+            let (w, e) = wire_and_expect(kind, 0, 0, &lens, false);
+            link.raw_send_now(&w);
+            let a = sim.recv(s);
+            match sim.run(a).await {
+                Ok(Some(Out::Recv(Ok(m)))) => {
+                    let body: Frames = if kind == Kind::Router { m.get(1..).map(|x| x.to_vec()).unwrap_or_default() } else { m.clone() };
+                    if Some(&body) != e.as_ref() {
+                        fail!(f, format!("C14/{}/message-lost-across-abandoned-recv", who), "the message sent after the abandoned recv came back as {} frames, not as sent", m.len());
+                    }
+                }
+                other => {
+                    fail!(
+                        f,
+                        format!("C14/{}/message-lost-across-abandoned-recv", who),
+                        "a recv was abandoned after a command frame; the message that arrived next must be returned by the next recv: {:?}",
+                        other.map(|o| o.map(|o| format!("{:?}", o).chars().take(100).collect::<String>()))
+                    );
+                }
+            }
+            (f, classes)
+        })
+    });
+    if let Some((f, classes)) = r {
+        o.failures = f;
+        for cl in classes {
+            o.class(cl);
+        }
+    }
+    o.nontrivial = true;
+    for p in panics {
+        o.fail(format!("C14/panic/{}", panic_sig(&p)), p);
+    }
+    o
+}
+
 pub fn run(ctx: &Ctx) -> (Report, PropertyMeta) {
     let mut report = Report::default();
     let t = ctx.tier;
+    {
+        let mut cc = vec![];
+        for kind in KINDS {
+            for polls_before in 0..=2usize {
+                for commands in [1usize, 2, 3] {
+                    for split in [0usize, 1, 2, 9] {
+                        for polls_after in 1..=3usize {
+                            cc.push(CmdCase { kind, polls_before, commands, split, polls_after });
+                        }
+                    }
+                }
+            }
+        }
+        let r = run_cases(ctx, "cmd", &cc, cmd_outcome);
+        report.exhaustive_parts.push(format!("7 socket types x 1..3 redundant READY command frames arriving (whole / cut after 1, 2, 9 bytes) while a recv is pending (polled 0..2 times before, 1..3 times after); a recv still pending afterwards is dropped, REQ must refuse the next send, the message sent next must be returned: {} cases", cc.len()));
+        report.merge(r);
+    }
     // exhaustive: one 3-frame message; every delivery prefix x every number of polls <= 4,
     // then cancel, then (REQ) an out-of-turn send, then complete
     let mut cases = vec![];
@@ -601,6 +774,7 @@ pub fn run(ctx: &Ctx) -> (Report, PropertyMeta) {
 pub fn replay(_ctx: &Ctx, kind: &str, case: &Value) -> Vec<Failure> {
     match kind {
         "cancel" => parse_case::<CancelCase>(case).map(|c| cancel_outcome(&c).failures),
+        "cmd" => parse_case::<CmdCase>(case).map(|c| cmd_outcome(&c).failures),
         _ => Err(vec![Failure::new("replay/unknown-kind", kind.to_string())]),
     }
     .unwrap_or_else(|e| e)
